@@ -139,13 +139,18 @@ pub fn build_doc(case: &Case) -> (Document, Vec<ObjectId>, bool, bool) {
                 // a number that is not an object: inside the dense range, just above, or far away
                 let d = case.dangling[(k + i) % case.dangling.len()];
                 // values >= 3 000 000 are taken literally (far away from every new range)
-                let mut n = if d >= 3_000_000 { d } else { 1 + d % (max_num + 40) };
-                let mut guard = 0;
-                while all_nums.contains(&n) && guard < 1000 {
-                    n += 1;
-                    guard += 1;
+                if d < 3_000_000 && d % 4 == 3 && !all_nums.is_empty() {
+                    // the number of a live object with another generation (0xFFFF is resolved to "its generation + 1" below)
+                    AObj::Ref(all_nums[(d as usize / 4) % all_nums.len()], 0xFFFF)
+                } else {
+                    let mut n = if d >= 3_000_000 { d } else { 1 + d % (max_num + 40) };
+                    let mut guard = 0;
+                    while all_nums.contains(&n) && guard < 1000 {
+                        n += 1;
+                        guard += 1;
+                    }
+                    AObj::Ref(n, 0)
                 }
-                AObj::Ref(n, 0)
             } else {
                 let n = all_nums[(*slot as usize * all_nums.len()) >> 16];
                 *ref_count.entry(n).or_insert(0) += 1;
@@ -204,7 +209,7 @@ pub fn build_doc(case: &Case) -> (Document, Vec<ObjectId>, bool, bool) {
         o.visit_mut(&mut |x| {
             if let AObj::Ref(t, g) = x {
                 if let Some(gg) = gen_of.get(t) {
-                    *g = *gg;
+                    *g = if *g == 0xFFFF { (*gg + 1) % 0xFFFE } else { *gg };
                 }
             }
         });
@@ -222,6 +227,53 @@ pub fn build_doc(case: &Case) -> (Document, Vec<ObjectId>, bool, bool) {
 }
 
 pub fn check(case: &Case) -> Verdict {
+    check_with(case, false)
+}
+
+/// old object vs. renumbered object, position by position: a reference must be the renamed one; with `tolerated` a
+/// reference that dangled before may have been renamed (known finding: dangling references are captured)
+fn same_under_renaming(old: &Object, new: &Object, map: &BTreeMap<ObjectId, ObjectId>, old_doc: &Document, tolerated: &mut Option<u64>, path: &str) -> Result<(), String> {
+    match (old, new) {
+        (Object::Reference(o), Object::Reference(n)) => {
+            let exp = map.get(o).unwrap_or(o);
+            if n == exp {
+                Ok(())
+            } else if let (Some(t), false) = (tolerated.as_mut(), old_doc.objects.contains_key(o)) {
+                *t += 1;
+                Ok(())
+            } else {
+                Err(format!("{}: expected {} {} R got {} {} R", path, exp.0, exp.1, n.0, n.1))
+            }
+        }
+        (Object::Array(a), Object::Array(b)) => {
+            if a.len() != b.len() {
+                return Err(format!("{}: array length {} became {}", path, a.len(), b.len()));
+            }
+            a.iter().zip(b.iter()).enumerate().try_for_each(|(i, (x, y))| same_under_renaming(x, y, map, old_doc, tolerated, &format!("{}[{}]", path, i)))
+        }
+        (Object::Dictionary(a), Object::Dictionary(b)) => {
+            if a.len() != b.len() {
+                return Err(format!("{}: dictionary size {} became {}", path, a.len(), b.len()));
+            }
+            for (k, x) in a.iter() {
+                let y = b.get(k).map_err(|_| format!("{}: key /{} lost", path, String::from_utf8_lossy(k)))?;
+                same_under_renaming(x, y, map, old_doc, tolerated, &format!("{}/{}", path, String::from_utf8_lossy(k)))?;
+            }
+            Ok(())
+        }
+        (Object::Stream(a), Object::Stream(b)) => {
+            if a.content != b.content {
+                return Err(format!("{}: stream content changed", path));
+            }
+            same_under_renaming(&Object::Dictionary(a.dict.clone()), &Object::Dictionary(b.dict.clone()), map, old_doc, tolerated, path)
+        }
+        (a, b) => canon::obj_eq(a, b, Opts::STRICT, path),
+    }
+}
+
+/// `tolerate_captured`: known finding C10-dangling-captured is open — a dangling reference that resolves after the
+/// renumbering is counted instead of reported, so that the focused campaign keeps looking for anything else
+pub fn check_with(case: &Case, tolerate_captured: bool) -> Verdict {
     let mut rep = CaseReport::new();
     let (mut doc, pages, shared_or_cyclic, has_dangling) = build_doc(case);
     // bookmarks
@@ -302,13 +354,21 @@ pub fn check(case: &Case) -> Verdict {
     // (2) trailer and every reachable object equal the originals with references renamed
     let t_exp = rename(&Object::Dictionary(old.trailer.clone()), &map);
     canon::obj_eq(&t_exp, &Object::Dictionary(doc.trailer.clone()), Opts::STRICT, "trailer").map_err(|e| viol!("reference-renamed-inconsistently", "{}", e))?;
+    let mut tolerated: Option<u64> = if tolerate_captured { Some(0) } else { None };
     for oid in &reach {
         let Some(nid) = map.get(oid) else {
             return Err(viol!("reachable-object-altered", "reachable object {:?} cannot be found after renumbering", oid));
         };
         let exp = rename(&old.objects[oid], &map);
         let act = doc.objects.get(nid).ok_or_else(|| viol!("reachable-object-altered", "object {:?} -> {:?} missing", oid, nid))?;
-        canon::obj_eq(&exp, act, Opts::STRICT, &format!("obj {:?} (was {:?})", nid, oid)).map_err(|e| viol!("reference-renamed-inconsistently", "renumbering from {}: {}", start, e))?;
+        if tolerate_captured {
+            same_under_renaming(&old.objects[oid], act, &map, &old, &mut tolerated, &format!("obj {:?} (was {:?})", nid, oid)).map_err(|e| viol!("reference-renamed-inconsistently", "renumbering from {}: {}", start, e))?;
+        } else {
+            canon::obj_eq(&exp, act, Opts::STRICT, &format!("obj {:?} (was {:?})", nid, oid)).map_err(|e| viol!("reference-renamed-inconsistently", "renumbering from {}: {}", start, e))?;
+        }
+    }
+    if tolerated.unwrap_or(0) > 0 {
+        rep.exclude("known:C10-dangling-captured");
     }
     // (5) references that dangled still dangle
     for oid in &reach {
@@ -316,6 +376,10 @@ pub fn check(case: &Case) -> Verdict {
         refs_of(&old.objects[oid], &mut rs);
         for r in rs {
             if !old.objects.contains_key(&r) && doc.objects.contains_key(&r) {
+                if tolerate_captured {
+                    rep.exclude("known:C10-dangling-captured");
+                    continue;
+                }
                 return Err(viol!(
                     "dangling-now-resolves",
                     "reference {:?} in object {:?} pointed at nothing before renumbering (from {}) and now resolves to {:?}",
@@ -354,7 +418,7 @@ pub fn check(case: &Case) -> Verdict {
 pub fn strategy(dangling_in_range: bool) -> BoxedStrategy<Case> {
     let extra = (vec((any::<u16>(), prop::bool::weighted(0.2)), 0..5), any::<bool>(), prop::bool::weighted(0.2), any::<u8>())
         .prop_map(|(refs, as_array, is_stream, anchor)| Extra { refs, as_array, is_stream, anchor });
-    let dang = if dangling_in_range { vec(prop_oneof![3 => 0u32..3_000_000, 1 => 3_000_000u32..4_000_000], 0..4).boxed() } else { vec(3_000_000u32..4_000_000, 0..4).boxed() };
+    let dang = if dangling_in_range { vec(prop_oneof![4 => 0u32..400, 2 => 0u32..3_000_000, 1 => 3_000_000u32..4_000_000], 0..4).boxed() } else { vec(3_000_000u32..4_000_000, 0..4).boxed() };
     (
         c12::tree_strategy(6),
         vec(extra, 0..8),
@@ -385,8 +449,8 @@ pub fn run(run: &mut Run) {
     let n = run.tier.pick(20_000, 600_000);
     run.campaign("renumber", move || strategy(dangling_on), n, check, classify);
     if !dangling_on {
-        let n2 = run.tier.pick(1_000, 20_000);
-        run.campaign("focused-dangling-references", || strategy(true), n2, check, classify);
+        let n2 = run.tier.pick(6_000, 100_000);
+        run.campaign("focused-dangling-references", || strategy(true), n2, |c| check_with(c, true), classify);
     }
 }
 
